@@ -417,7 +417,7 @@ func CheckC04(p *Pkg, e *Env, r *res.Result) {
 				}
 			}
 		}
-		target := "http://h.example" + p.BasePath + oi.op.Template
+		target := "http://h.example" + escapeForURL(p.BasePath+oi.op.Template)
 		if enc := q.Encode(); enc != "" {
 			target += "?" + enc
 		}
